@@ -115,6 +115,7 @@ func checkC12(ctx *Ctx, r *Report, tier string) {
 	r.expectControl("G3", "verifCtlToNoReturnOnError")
 	r.expectControl("G5", "verifCtlToWaitBeforeClose")
 	ruleLockReleased(ctx, r)
+	ruleSemaphoreReleased(ctx, r)
 }
 
 // ruleLockReleased (G6): every mutex the library takes is released on every way out of the
@@ -450,4 +451,145 @@ func ruleSinkUse(ctx *Ctx, r *Report, fn *ssa.Function, sc sinkCreation) {
 	// G5: Render(...) -> close(ch) -> wg.Wait(), helper-aware (shared with C11/B4)
 	ruleSinkOrder(ctx, r, "G5", fn, sc)
 	_ = strings.TrimSpace
+}
+
+// ruleSemaphoreReleased (G9): a package-level channel of empty structs used as a counting
+// semaphore (send = take a slot, receive = give it back) is the channel form of G6: every path
+// from the send to a return or panic of the function gives the slot back - by a receive from the
+// same channel, by a deferred call that receives from it, or by handing it to a goroutine or a
+// called function that receives from it. A slot kept by the early return of an error branch is
+// gone for the life of the process; after `cap` failed saves every later save waits for ever.
+func ruleSemaphoreReleased(ctx *Ctx, r *Report) {
+	semOf := func(v ssa.Value) *ssa.Global {
+		u, ok := v.(*ssa.UnOp)
+		if !ok || u.Op != token.MUL {
+			return nil
+		}
+		g, ok := u.X.(*ssa.Global)
+		if !ok {
+			return nil
+		}
+		pt, ok := g.Type().(*types.Pointer)
+		if !ok {
+			return nil
+		}
+		ch, ok := pt.Elem().Underlying().(*types.Chan)
+		if !ok {
+			return nil
+		}
+		st, ok := ch.Elem().Underlying().(*types.Struct)
+		if !ok || st.NumFields() != 0 {
+			return nil
+		}
+		return g
+	}
+	var receives func(fn *ssa.Function, g *ssa.Global, seen map[*ssa.Function]bool) bool
+	receives = func(fn *ssa.Function, g *ssa.Global, seen map[*ssa.Function]bool) bool {
+		if fn == nil || seen[fn] || len(seen) > 200 {
+			return false
+		}
+		seen[fn] = true
+		found := false
+		allInstrs(fn, func(_ *ssa.BasicBlock, ins ssa.Instruction) {
+			if found {
+				return
+			}
+			if u, ok := ins.(*ssa.UnOp); ok && u.Op == token.ARROW && semOf(u.X) == g {
+				found = true
+				return
+			}
+			if c, ok := ins.(ssa.CallInstruction); ok {
+				if cf := calleeOfCommon(c.Common()); cf != nil && inModule(cf) && receives(cf, g, seen) {
+					found = true
+				}
+			}
+		})
+		return found
+	}
+	hands := func(ins ssa.Instruction, g *ssa.Global) bool {
+		if u, ok := ins.(*ssa.UnOp); ok && u.Op == token.ARROW && semOf(u.X) == g {
+			return true
+		}
+		if c, ok := ins.(ssa.CallInstruction); ok {
+			if cf := calleeOfCommon(c.Common()); cf != nil && inModule(cf) {
+				return receives(cf, g, map[*ssa.Function]bool{})
+			}
+		}
+		return false
+	}
+	n := 0
+	for _, fn := range ctx.srcFuncs("render", "sdf", "obj", "render/dc") {
+		if len(fn.Blocks) == 0 {
+			continue
+		}
+		ord := 0
+		allInstrs(fn, func(b *ssa.BasicBlock, ins ssa.Instruction) {
+			snd, ok := ins.(*ssa.Send)
+			if !ok {
+				return
+			}
+			g := semOf(snd.Chan)
+			if g == nil {
+				return
+			}
+			ord++
+			n++
+			deferred := false
+			allInstrs(fn, func(_ *ssa.BasicBlock, d ssa.Instruction) {
+				if _, isDefer := d.(*ssa.Defer); isDefer && hands(d, g) {
+					deferred = true
+				}
+			})
+			bad := ""
+			if !deferred {
+				seen := map[*ssa.BasicBlock]bool{}
+				var walk func(blk *ssa.BasicBlock, from int)
+				walk = func(blk *ssa.BasicBlock, from int) {
+					for i := from; i < len(blk.Instrs); i++ {
+						x := blk.Instrs[i]
+						if hands(x, g) {
+							return
+						}
+						switch x.(type) {
+						case *ssa.Return, *ssa.Panic:
+							if bad == "" {
+								bad = " the exit at " + ctx.pos(lastPos(blk)) + " is reached with the slot still taken;"
+							}
+							return
+						}
+					}
+					for _, su := range blk.Succs {
+						if !seen[su] {
+							seen[su] = true
+							walk(su, 0)
+						}
+					}
+				}
+				idx := 0
+				for i, x := range b.Instrs {
+					if x == ins {
+						idx = i + 1
+					}
+				}
+				walk(b, idx)
+			}
+			r.check("G9", fmt.Sprintf("%s|slot#%d-of-%s-given-back-on-every-exit", shortFn(fn), ord, g.Name()), ins.Pos(), bad == "",
+				"every path from the send on the semaphore channel to a return passes a receive from it, or hands the slot to a goroutine / deferred call / callee that receives from it;"+bad)
+		})
+	}
+	r.Counts["semaphore_sites"] = n
+	r.expectControl("G9", "verifCtlSlotLeak")
+}
+
+// calleeOfCommon: the function a call, go or defer statement runs when that is known statically
+// (a named function, a method, or a function literal written at the call).
+func calleeOfCommon(c *ssa.CallCommon) *ssa.Function {
+	if f := c.StaticCallee(); f != nil {
+		return f
+	}
+	if mc, ok := c.Value.(*ssa.MakeClosure); ok {
+		f, _ := mc.Fn.(*ssa.Function)
+		return f
+	}
+	return nil
 }
